@@ -155,12 +155,78 @@ def context_rule(rep, f):
     rep.ob("C10.d", "context-passing", True, "%d call sites pass their ValidationContext parameter (DOM XPath evaluator exempt)" % n, "")
 
 
+def store_reset_rule(rep, f):
+    rep.rule("C10.e", "identity-constraint state does not outlive a document: every container member of ValueStoreCache that some "
+             "method fills (put / addElement / push) is emptied by ValueStoreCache::startDocument (removeAll / removeAllElements) — "
+             "value stores kept from an earlier document carry that document's keys and its error-reporting mode into the next")
+    cls = "ValueStoreCache"
+    filled, cleared = {}, set()
+    for x in f.kind("fld"):
+        fn = x["_fn"]
+        if fn.get("cls") != cls or not x["f"].startswith(cls + "::"):
+            continue
+        how = x["how"]
+        if how.startswith("call:") and how[5:] in ("put", "addElement", "push", "setElementAt"):
+            filled.setdefault(x["f"], (fn["q"], x.get("l", 0)))
+        if fn["q"] == cls + "::startDocument" and how in ("call:removeAll", "call:removeAllElements", "call:reset", "write"):
+            cleared.add(x["f"])
+    if len(filled) < 3:
+        raise AnalysisBroken("C10.e: fewer than 3 filled containers in ValueStoreCache (%s)" % sorted(filled))
+    for fld, (q, l) in sorted(filled.items()):
+        ok = fld in cleared
+        rep.ob("C10.e", fld, ok, "emptied at the start of every document" if ok else
+               "%s is filled by %s (line %s) but ValueStoreCache::startDocument does not empty it: its content survives into the next "
+               "document validated by the same parser" % (fld, q, l), "src/xercesc/validators/schema/identity/ValueStoreCache.cpp:%s" % l)
+
+
+def field_content_rule(rep):
+    rep.rule("C10.f", "the value an identity-constraint field sees is the character data the document delivers: in sendCharData and "
+             "scanCDSection of the two schema-aware scanners, with schema validation and identity-constraint checking on (CFG pruned "
+             "under those assumptions), every docCharacters call is preceded on every path by the append of that chunk to fContent, "
+             "the buffer the field matchers read at the end tag — a chunk that is delivered but not appended (white space between two "
+             "comments, a blank value) changes which tuples count as equal")
+    sites = [("IGXMLScanner::sendCharData", "src/xercesc/internal/IGXMLScanner2.cpp"), ("IGXMLScanner::scanCDSection", "src/xercesc/internal/IGXMLScanner2.cpp"),
+             ("SGXMLScanner::sendCharData", "src/xercesc/internal/SGXMLScanner.cpp"), ("SGXMLScanner::scanCDSection", "src/xercesc/internal/SGXMLScanner.cpp")]
+    g = core.run_xa(sorted({os.path.join(core.REPO, fl) for _, fl in sites}), cfg="^(" + "|".join(re.escape(q) for q, _ in sites) + ")$", flat=False)
+
+    def assume(leaf):
+        if leaf[0] == "c" and leaf[1].split("::")[-1] in ("toCheckIdentityConstraint", "getMatcherCount"):
+            return True
+        if leaf[0] == "b" and leaf[1] in ("==", "!=") and leaf[2][0] == "f" and leaf[2][1].endswith("::fGrammarType") and leaf[3][0] == "e" \
+                and leaf[3][1].endswith("SchemaGrammarType"):
+            return leaf[1] == "=="
+        if leaf[0] == "f" and leaf[1].endswith("::fValidate"):
+            return True
+        return None
+    n = 0
+    for q, fl in sites:
+        cfg = guard.pruned(guard.Cfg(g.cfg(q)), assume)
+        rb = guard.reachable(cfg)
+
+        def isa(el):
+            return any(c[0] == "c" and c[1].split("::")[-1] == "append" and c[2] and c[2][0] == "f" and c[2][1].endswith("::fContent")
+                       for c in guard.el_top_calls(el))
+
+        def isb(el):
+            return any(c[0] == "c" and c[1].split("::")[-1] == "docCharacters" for c in guard.el_top_calls(el))
+        for b, i, el, ok in guard.must_precede(cfg, isa, isb):
+            if b not in rb:
+                continue
+            n += 1
+            rep.ob("C10.f", "%s@docCharacters:%s" % (q, el.get("l")), ok, "chunk appended to the field content first" if ok else
+                   "%s (line %s) delivers character data to the document handler on a path on which it was not appended to fContent: the "
+                   "identity-constraint fields of the element do not see this chunk" % (q, el.get("l")), "%s:%s" % (fl, el.get("l", 0)))
+    rep.floor("C10.f", n, 8)
+
+
 def run(rep):
     f = core.library_facts()
     rep.units.update(os.path.relpath(t, core.REPO) for t in f.tus)
     protocol_rule(rep, f)
     hash_root_rule(rep, f)
     context_rule(rep, f)
+    store_reset_rule(rep, f)
+    field_content_rule(rep)
     diag.run(rep, f, "C10")
     dispatch.run(rep, f, "C10")
     rep.undecided += ["value-space equality of field tuples (canonical forms, hashing)", "scoping results of key/keyref across nested scopes",
